@@ -120,6 +120,7 @@ TRUSTED = {
     'T11': 'functools.wraps copies __name__, __qualname__, __doc__, __module__, __dict__ and sets __wrapped__',
     'T12': 'deque.popleft with extend is FIFO',
     'T13': 'truthiness, ==, in, attribute access, calls and iteration dispatch to the operand\'s class and may raise; isinstance and is do not',
+    'T14': 'inspect.getfullargspec reports `defaults` and `kwonlydefaults` as None (not empty) when the signature has none',
 }
 
 
